@@ -386,10 +386,30 @@ func (e *Engine) pathSet(root string, path []PathElem, nv string) string {
 }
 
 func (e *Engine) load(st *State, l *Loc) string {
+	if l.Kind == LChoice {
+		r := e.load(st, l.Alts[len(l.Alts)-1].L)
+		for i := len(l.Alts) - 2; i >= 0; i-- {
+			r = sIte(l.Alts[i].Cond, e.load(st, l.Alts[i].L), r)
+		}
+		return r
+	}
 	return e.pathGet(e.loadRoot(st, l), l.Path)
 }
 
 func (e *Engine) store(st *State, l *Loc, v string) {
+	if l.Kind == LChoice {
+		// conditional store to each alternative; the alternative chosen is the first whose condition holds
+		taken := "false"
+		for i, a := range l.Alts {
+			c := sAnd(a.Cond, sNot(taken))
+			if i == len(l.Alts)-1 {
+				c = sNot(taken)
+			}
+			e.store(st, a.L, sIte(c, v, e.load(st, a.L)))
+			taken = sOr(taken, a.Cond)
+		}
+		return
+	}
 	if len(l.Path) == 0 {
 		e.storeRoot(st, l, v)
 		return
@@ -399,6 +419,9 @@ func (e *Engine) store(st *State, l *Loc, v string) {
 }
 
 func locType(l *Loc) types.Type {
+	if l.Kind == LChoice && len(l.Alts) > 0 {
+		return locType(l.Alts[0].L)
+	}
 	t := l.RootT
 	for _, p := range l.Path {
 		if p.Field >= 0 {
@@ -572,6 +595,26 @@ func (f *Frame) mergePhi(phi *ssa.Phi, b *ssa.BasicBlock, in []*State, inPreds [
 		v.T = phi.Type()
 		return v
 	}
+	allLoc := true
+	for _, t := range terms {
+		if t.Loc == nil || t.S != "" || t.Loc.Kind == LCell {
+			allLoc = false
+		}
+	}
+	if allLoc {
+		// a pointer into one of several objects/fields, selected by the edge taken
+		nl := &Loc{Kind: LChoice, RootT: terms[0].Loc.RootT}
+		for i, t := range terms {
+			if t.Loc.Kind == LChoice {
+				for _, a := range t.Loc.Alts {
+					nl.Alts = append(nl.Alts, LocAlt{Cond: sAnd(in[i].cond, a.Cond), L: a.L})
+				}
+				continue
+			}
+			nl.Alts = append(nl.Alts, LocAlt{Cond: in[i].cond, L: t.Loc})
+		}
+		return Val{T: phi.Type(), Loc: nl}
+	}
 	for _, t := range terms {
 		if t.S == "" {
 			e.note("phi %s in %s merges non-term values: havocked", phi.Name(), f.fn.Name())
@@ -732,6 +775,16 @@ func (f *Frame) exec(instr ssa.Instruction, st *State) {
 			e.check(f, st, "no-panic.nil", "nil pointer dereference", sNot(sEq(l.Base, "0")), in.Pos())
 		}
 		pt := in.X.Type().Underlying().(*types.Pointer).Elem()
+		if l.Kind == LChoice {
+			nl := &Loc{Kind: LChoice, RootT: l.RootT}
+			for _, a := range l.Alts {
+				al := *a.L
+				al.Path = append(append([]PathElem{}, a.L.Path...), PathElem{Field: in.Field, ST: pt.Underlying().(*types.Struct), STyp: pt})
+				nl.Alts = append(nl.Alts, LocAlt{Cond: a.Cond, L: &al})
+			}
+			f.set(in, Val{T: in.Type(), Loc: nl})
+			return
+		}
 		nl := *l
 		nl.Path = append(append([]PathElem{}, l.Path...), PathElem{Field: in.Field, ST: pt.Underlying().(*types.Struct), STyp: pt})
 		f.set(in, Val{T: in.Type(), Loc: &nl})
@@ -1423,7 +1476,19 @@ func (e *Engine) intToFloat(x string, from, to *types.Basic) string {
 		}
 		return fmt.Sprintf("((_ to_fp %d %d) RNE %s)", eb, sb, x)
 	}
-	return fmt.Sprintf("((_ to_fp %d %d) RNE (to_real %s))", eb, sb, x)
+	// mode int: the conversion is an uninterpreted (deterministic) function of the integer - the solvers do not decide
+	// mixed Int -> Real -> FloatingPoint goals; functions whose property needs the rounding itself use mode bv
+	if lit, ok := litInt(x); ok {
+		if strings.HasPrefix(lit, "-") {
+			return fmt.Sprintf("((_ to_fp %d %d) RNE (- %s.0))", eb, sb, lit[1:])
+		}
+		return fmt.Sprintf("((_ to_fp %d %d) RNE %s.0)", eb, sb, lit)
+	}
+	name := fmt.Sprintf("go.i2f%d", eb+sb)
+	// a converted integer is a finite number (never NaN or infinite)
+	e.sc.Decl("fun:"+name, fmt.Sprintf("(declare-fun %s (Int) (_ FloatingPoint %d %d))\n(assert (forall ((x Int)) (! (not (or (fp.isNaN (%s x)) (fp.isInfinite (%s x)))) :pattern ((%s x)))))", name, eb, sb, name, name, name))
+	e.assumed["integer-to-float conversions are uninterpreted deterministic functions in mode int (their rounding is only modelled in mode bv)"] = true
+	return fmt.Sprintf("(%s %s)", name, x)
 }
 
 func (e *Engine) floatToInt(x string, from, to *types.Basic) string {
